@@ -8,14 +8,19 @@ package main
 import (
 	"encoding/base64"
 	"encoding/json"
+	"errors"
 	"fmt"
 	"math/big"
 	"os"
 	"reflect"
+	"runtime/debug"
 	"sort"
 	"strconv"
 	"strings"
+	"sync"
 	"time"
+	"unicode"
+	"unicode/utf8"
 
 	"github.com/getkin/kin-openapi/openapi3"
 	"github.com/getkin/kin-openapi/openapi3gen"
@@ -26,14 +31,17 @@ import (
 func init() {
 	hx.Register(&hx.Prop{
 		ID: "C18",
-		Rule: "exhaustive: every leaf kind (bool, 10 integer kinds, 2 float kinds, string, []byte, time.Time) under 14 wrappers (T, *T, **T, []T, []*T, map, map of *T, *[]T, " +
+		Rule: "exhaustive: every leaf kind (bool, 10 integer kinds, 2 float kinds, string, []byte, time.Time, and 7 defined types over them) under 17 wrappers (T, *T, **T, []T, []*T, map, map of *T, *[]T, [2]T, " +
 			"field, pointer field, omitempty field, untagged field, same struct by value and by pointer in both orders) with the kind's extreme values and nil/non-nil pointers, with and without UseAllExportedFields; " +
-			"a zoo of declared recursive / mutually recursive / embedded types with several values each; 30 embedded/tag shapes; then a seeded random stream of types " +
-			"(reflect.StructOf/SliceOf/MapOf/PointerTo, depth <= 4, <= 4 fields, embedded structs, tag options, name clashes, references to the declared recursive types) with random values. " +
-			"A case is non-trivial when the model reports at least one non-default branch (kind with bounds, pointer, cache hit, cycle cut, embedded, omitempty, untagged, exported component, ...).",
+			"every declared struct type of the zoo (41: recursive, mutually recursive, embedded, defined element types, empty, anonymous members, yaml tags, generics, arrays) under the full option matrix " +
+			"(UseAllExportedFields x ThrowErrorOnCycle x SchemaCustomizer none/identity/excluding x CreateComponentSchemas off/on/+TopLevel/+Generics x CreateTypeNameGenerator none/prefix/table = 144 sets); " +
+			"the zoo under 5 wrappers with random option sets; 40 embedded/tag/yaml shapes; then a seeded random stream of types " +
+			"(reflect.StructOf/SliceOf/MapOf/ArrayOf/PointerTo, depth <= 4, <= 4 fields, embedded structs and defined types, tag options, yaml tags, name clashes, map key kinds, references to the declared types) with random values and random option sets. " +
+			"A case is non-trivial when the model reports at least one non-default branch (kind with bounds, pointer, cache hit, cycle cut, embedded, omitempty, untagged, exported component, option, ...).",
 		Exhaustive: true,
 		Gen:        genC18,
 		Run:        runC18,
+		RunChild:   runC18Child,
 		Compare:    cmpC18,
 		Shrink:     shrinkC18,
 		Workers:    1, // openapi3gen's package-level typeInfos table is filled racily: two goroutines meeting a type for the first time get different *theTypeInfo, one cycle test is then missed and the schema is expanded one level more
@@ -41,94 +49,12 @@ func init() {
 			"reflect and encoding/json are trusted; the model's encoder is compared with json.Marshal on every case",
 			"float values are decimals with few digits (exact in the model); []byte and time.Time values are carried as their encoded text",
 			"structs have at most 12 discovered fields (sort.Sort is an insertion sort, hence stable, up to that size)",
-			"generator options other than UseAllExportedFields are not exercised",
+			"a SchemaCustomizer is exercised through the three ways it can return (nil, ExcludeSchemaSentinel, another error), not through edits of the schema",
+			"type-name generators are injective on the declared names of a case (otherwise the case is outside the domain)",
 			"generation runs on one goroutine (first-time concurrent use of one type changes where cycles are cut)",
+			"types containing `type L []L` / `type M map[string]M` are evaluated in a child process (the generator overflows the stack)",
 		},
 	})
-}
-
-// ------------------------------------------------------------------ declared zoo
-
-type ZNode struct {
-	Next *ZNode `json:"next"`
-	V    int8   `json:"v"`
-}
-type ZKids struct {
-	Kids []*ZKids `json:"kids"`
-	N    uint16   `json:"n,omitempty"`
-}
-type ZTree struct {
-	Kids map[string]*ZTree `json:"kids"`
-	V    int               `json:"v"`
-}
-type ZA struct {
-	B *ZB   `json:"b"`
-	V int32 `json:"v"`
-}
-type ZB struct {
-	A *ZA    `json:"a"`
-	V string `json:"v"`
-}
-type ZBoth struct {
-	A ZNode  `json:"a"`
-	B *ZNode `json:"b"`
-}
-type ZDList struct {
-	Next *ZDList `json:"next,omitempty"`
-	Prev *ZDList `json:"prev,omitempty"`
-	ID   uint64  `json:"id"`
-}
-type ZInner struct {
-	X int16  `json:"x"`
-	Y string `json:"y,omitempty"`
-}
-type ZEmb struct {
-	ZInner
-	Z bool `json:"z"`
-}
-type ZEmbP struct {
-	*ZInner
-	Z *bool `json:"z"`
-}
-type ZEmbRec struct {
-	ZNode
-	W float32 `json:"w"`
-}
-type ZHidden struct {
-	A      int `json:"a"`
-	hidden int
-	Skip   string `json:"-"`
-	Plain  uint8
-}
-type ZSliceRec struct {
-	Items []ZSliceRec `json:"items"`
-	T     time.Time   `json:"t"`
-}
-type ZMapRec struct {
-	M map[string]ZMapRec `json:"m"`
-	B []byte             `json:"b"`
-}
-type ZDeep struct {
-	P **ZDeep `json:"p"`
-	L int64   `json:"l"`
-}
-type ZOuter struct {
-	In  ZMid  `json:"in"`
-	Ptr *ZMid `json:"ptr"`
-}
-type ZMid struct {
-	Back *ZOuter `json:"back"`
-	U    uint32  `json:"u"`
-}
-
-var c18Zoo = map[string]reflect.Type{}
-
-func init() {
-	for _, v := range []any{ZNode{}, ZKids{}, ZTree{}, ZA{}, ZB{}, ZBoth{}, ZDList{}, ZInner{}, ZEmb{}, ZEmbP{}, ZEmbRec{},
-		ZHidden{}, ZSliceRec{}, ZMapRec{}, ZDeep{}, ZOuter{}, ZMid{}} {
-		t := reflect.TypeOf(v)
-		c18Zoo[t.Name()] = t
-	}
 }
 
 var c18TimeType = reflect.TypeOf(time.Time{})
@@ -136,8 +62,21 @@ var c18TimeType = reflect.TypeOf(time.Time{})
 type obj = map[string]any
 
 // c18Describe gives the case description of a Go type; declared zoo structs become {"k":"named"} and their
-// field lists are collected into decls.
+// field lists are collected into decls; defined non-struct types become {"k":"def","n":…,"u":underlying}.
 func c18Describe(t reflect.Type, decls map[string]any, inline bool) obj {
+	if t.Name() != "" && t.PkgPath() != "" && t.Kind() != reflect.Struct {
+		if (t.Kind() == reflect.Slice || t.Kind() == reflect.Map) && t.Elem() == t {
+			return obj{"k": "recs", "m": t.Kind() == reflect.Map}
+		}
+		if _, ok := c18Zoo[t.Name()]; !ok {
+			panic("c18: defined type outside the zoo: " + t.String())
+		}
+		return obj{"k": "def", "n": t.Name(), "u": c18DescribeKind(t, decls, false)}
+	}
+	return c18DescribeKind(t, decls, inline)
+}
+
+func c18DescribeKind(t reflect.Type, decls map[string]any, inline bool) obj {
 	switch t.Kind() {
 	case reflect.Bool:
 		return obj{"k": "bool"}
@@ -152,12 +91,15 @@ func c18Describe(t reflect.Type, decls map[string]any, inline bool) obj {
 	case reflect.Ptr:
 		return obj{"k": "ptr", "e": c18Describe(t.Elem(), decls, inline)}
 	case reflect.Slice:
-		if t.Elem().Kind() == reflect.Uint8 {
-			return obj{"k": "bytes"}
-		}
-		return obj{"k": "slice", "e": c18Describe(t.Elem(), decls, false)}
+		return sl(c18Describe(t.Elem(), decls, false))
+	case reflect.Array:
+		return obj{"k": "array", "len": t.Len(), "e": c18Describe(t.Elem(), decls, false)}
 	case reflect.Map:
-		return obj{"k": "map", "e": c18Describe(t.Elem(), decls, false)}
+		d := obj{"k": "map", "e": c18Describe(t.Elem(), decls, false)}
+		if kt := c18Describe(t.Key(), decls, false); kt["k"] != "string" {
+			d["kt"] = kt
+		}
+		return d
 	case reflect.Struct:
 		if t == c18TimeType {
 			return obj{"k": "time"}
@@ -179,8 +121,16 @@ func c18Fields(t reflect.Type, decls map[string]any) []any {
 	for i := 0; i < t.NumField(); i++ {
 		f := t.Field(i)
 		tag := f.Tag.Get("json")
-		fd := obj{"name": f.Name, "tag": tag, "emb": f.Anonymous, "unexp": !f.IsExported()}
-		fd["t"] = c18Describe(f.Type, decls, f.Anonymous && tag == "")
+		first, _ := utf8.DecodeRuneInString(f.Name)
+		fd := obj{"name": f.Name, "tag": tag, "emb": f.Anonymous, "unexp": !f.IsExported(), "lower": unicode.IsLower(first)}
+		if y, ok := f.Tag.Lookup("yaml"); ok {
+			fd["yaml"] = y
+		}
+		ft := f.Type
+		if ft.Kind() == reflect.Ptr {
+			ft = ft.Elem()
+		}
+		fd["t"] = c18Describe(f.Type, decls, f.Anonymous && tag == "" && ft.Kind() == reflect.Struct)
 		fs = append(fs, fd)
 	}
 	return fs
@@ -204,11 +154,13 @@ func c18AddDecls(d obj, decls map[string]any) {
 	switch d["k"] {
 	case "named":
 		c18Describe(c18Zoo[d["n"].(string)], decls, false)
-	case "ptr", "slice", "map":
-		c18AddDecls(d["e"].(obj), decls)
+	case "def":
+		c18AddDecls(asObj(d["u"]), decls)
+	case "ptr", "slice", "map", "array":
+		c18AddDecls(asObj(d["e"]), decls)
 	case "struct":
-		for _, f := range d["fields"].([]any) {
-			c18AddDecls(f.(obj)["t"].(obj), decls)
+		for _, f := range jlist(d["fields"]) {
+			c18AddDecls(asObj(asObj(f)["t"]), decls)
 		}
 	}
 }
@@ -260,20 +212,40 @@ func c18Build(d obj) reflect.Type {
 		return reflect.PointerTo(c18Build(asObj(d["e"])))
 	case "slice":
 		return reflect.SliceOf(c18Build(asObj(d["e"])))
+	case "array":
+		n, _ := strconv.Atoi(fmt.Sprint(d["len"]))
+		return reflect.ArrayOf(n, c18Build(asObj(d["e"])))
 	case "map":
-		return reflect.MapOf(reflect.TypeOf(""), c18Build(asObj(d["e"])))
-	case "named":
+		kt := reflect.TypeOf("")
+		if k := asObj(d["kt"]); k != nil {
+			kt = c18Build(k)
+		}
+		return reflect.MapOf(kt, c18Build(asObj(d["e"])))
+	case "named", "def":
 		if t, ok := c18Zoo[jstr(d, "n")]; ok {
 			return t
 		}
+	case "recs":
+		if jbool(d, "m") {
+			return reflect.TypeOf(ZM{})
+		}
+		return reflect.TypeOf(ZL{})
 	case "struct":
 		var sf []reflect.StructField
 		for _, f := range jlist(d["fields"]) {
 			fm := asObj(f)
 			x := reflect.StructField{Name: jstr(fm, "name"), Type: c18Build(asObj(fm["t"])), Anonymous: jbool(fm, "emb")}
-			if tag := jstr(fm, "tag"); tag != "" {
-				x.Tag = reflect.StructTag(`json:"` + tag + `"`)
+			tag := ""
+			if jt := jstr(fm, "tag"); jt != "" {
+				tag = `json:"` + jt + `"`
 			}
+			if y, ok := fm["yaml"].(string); ok {
+				if tag != "" {
+					tag += " "
+				}
+				tag += `yaml:"` + y + `"`
+			}
+			x.Tag = reflect.StructTag(tag)
 			sf = append(sf, x)
 		}
 		return reflect.StructOf(sf)
@@ -305,15 +277,23 @@ func c18BuildValue(v obj, t reflect.Type) reflect.Value {
 		p := reflect.New(t.Elem())
 		p.Elem().Set(c18BuildValue(asObj(v["ref"]), t.Elem()))
 		out.Set(p)
-	case reflect.Slice:
-		if t.Elem().Kind() == reflect.Uint8 {
+	case reflect.Slice, reflect.Array:
+		if _, isBytes := v["bytes"]; isBytes && t.Kind() == reflect.Slice {
 			b, _ := base64.StdEncoding.DecodeString(jstr(v, "bytes"))
 			s := reflect.MakeSlice(t, len(b), len(b))
-			reflect.Copy(s, reflect.ValueOf(b))
+			for i, x := range b {
+				s.Index(i).SetUint(uint64(x))
+			}
 			out.Set(s)
 			return out
 		}
 		l := jlist(v["slice"])
+		if t.Kind() == reflect.Array {
+			for i := 0; i < t.Len() && i < len(l); i++ {
+				out.Index(i).Set(c18BuildValue(asObj(l[i]), t.Elem()))
+			}
+			return out
+		}
 		s := reflect.MakeSlice(t, len(l), len(l))
 		for i, x := range l {
 			s.Index(i).Set(c18BuildValue(asObj(x), t.Elem()))
@@ -323,7 +303,19 @@ func c18BuildValue(v obj, t reflect.Type) reflect.Value {
 		m := reflect.MakeMap(t)
 		for _, kv := range jlist(v["map"]) {
 			p := jlist(kv)
-			m.SetMapIndex(reflect.ValueOf(p[0].(string)), c18BuildValue(asObj(p[1]), t.Elem()))
+			k := reflect.New(t.Key()).Elem()
+			ks := p[0].(string)
+			switch t.Key().Kind() {
+			case reflect.String:
+				k.SetString(ks)
+			case reflect.Int, reflect.Int8, reflect.Int16, reflect.Int32, reflect.Int64:
+				n, _ := strconv.ParseInt(ks, 10, 64)
+				k.SetInt(n)
+			default:
+				n, _ := strconv.ParseUint(ks, 10, 64)
+				k.SetUint(n)
+			}
+			m.SetMapIndex(k, c18BuildValue(asObj(p[1]), t.Elem()))
 		}
 		out.Set(m)
 	case reflect.Struct:
@@ -345,15 +337,106 @@ func c18BuildValue(v obj, t reflect.Type) reflect.Value {
 	return out
 }
 
+// ------------------------------------------------------------------ options
+
+func c18Options(c hx.Case) []openapi3gen.Option {
+	var opts []openapi3gen.Option
+	o := asObj(c["opts"])
+	if jbool(c, "all") || jbool(o, "all") {
+		opts = append(opts, openapi3gen.UseAllExportedFields())
+	}
+	if o == nil {
+		return opts
+	}
+	if jbool(o, "throw") {
+		opts = append(opts, openapi3gen.ThrowErrorOnCycle())
+	}
+	if jbool(o, "cust") {
+		excl, fail := toStrs(jlist(o["excl"])), toStrs(jlist(o["fail"]))
+		opts = append(opts, openapi3gen.SchemaCustomizer(func(name string, t reflect.Type, tag reflect.StructTag, schema *openapi3.Schema) error {
+			for _, x := range excl {
+				if x == name {
+					return &openapi3gen.ExcludeSchemaSentinel{}
+				}
+			}
+			for _, x := range fail {
+				if x == name {
+					return errC18Custom
+				}
+			}
+			return nil
+		}))
+	}
+	if jbool(o, "export") {
+		opts = append(opts, openapi3gen.CreateComponentSchemas(openapi3gen.ExportComponentSchemasOptions{
+			ExportComponentSchemas: true, ExportTopLevelSchema: jbool(o, "top"), ExportGenerics: jbool(o, "generics")}))
+	}
+	if g := asObj(o["tng"]); g != nil {
+		pfx := jstr(g, "pfx")
+		tbl := map[string]string{}
+		for _, kv := range jlist(g["tbl"]) {
+			p := jlist(kv)
+			if _, dup := tbl[fmt.Sprint(p[0])]; !dup { // first entry wins, as in the model's lookup
+				tbl[fmt.Sprint(p[0])] = fmt.Sprint(p[1])
+			}
+		}
+		opts = append(opts, openapi3gen.CreateTypeNameGenerator(func(t reflect.Type) string {
+			if v, ok := tbl[t.Name()]; ok {
+				return v
+			}
+			return pfx + t.Name()
+		}))
+	}
+	return opts
+}
+
+var errC18Custom = errors.New("custom failure")
+
+func c18HasRecs(d obj) bool {
+	switch jstr(d, "k") {
+	case "recs":
+		return true
+	case "ptr", "slice", "map", "array":
+		return c18HasRecs(asObj(d["e"]))
+	case "def":
+		return c18HasRecs(asObj(d["u"]))
+	case "struct":
+		for _, f := range jlist(d["fields"]) {
+			if c18HasRecs(asObj(asObj(f)["t"])) {
+				return true
+			}
+		}
+	}
+	return false
+}
+
 // ------------------------------------------------------------------ run the real code
 
 func runC18(c hx.Case) any {
+	risky := c18HasRecs(asObj(c["type"]))
+	for _, d := range jlist(c["decls"]) {
+		for _, f := range jlist(asObj(d)["fields"]) {
+			risky = risky || c18HasRecs(asObj(asObj(f)["t"]))
+		}
+	}
+	if risky {
+		return hx.RunIsolated("C18", c, 30000)
+	}
+	return runC18Direct(c)
+}
+
+var c18StackOnce sync.Once
+
+// runC18Child is what the child process evaluates: the stack limit is lowered so that unbounded recursion ends quickly.
+func runC18Child(c hx.Case) any {
+	c18StackOnce.Do(func() { debug.SetMaxStack(64 << 20) })
+	return runC18Direct(c)
+}
+
+func runC18Direct(c hx.Case) any {
 	t := c18Build(asObj(c["type"]))
 	val := c18BuildValue(asObj(c["value"]), t)
-	var opts []openapi3gen.Option
-	if jbool(c, "all") {
-		opts = append(opts, openapi3gen.UseAllExportedFields())
-	}
+	opts := c18Options(c)
 	res := obj{"ok": false, "gen": false, "load": false, "accept": false}
 	enc, err := json.Marshal(val.Interface())
 	if err != nil {
@@ -365,6 +448,14 @@ func runC18(c hx.Case) any {
 	ref, err := openapi3gen.NewSchemaRefForValue(val.Interface(), schemas, opts...)
 	if err != nil || ref == nil {
 		res["err"] = fmt.Sprint("generate: ", err)
+		switch {
+		case err == nil:
+			res["genErr"] = "excluded"
+		case errors.As(err, new(*openapi3gen.CycleError)):
+			res["genErr"] = "cycle"
+		default:
+			res["genErr"] = "err"
+		}
 		return res
 	}
 	res["gen"] = true
@@ -481,19 +572,10 @@ func cmpC18(c hx.Case, impl any, reply map[string]any) hx.Verdict {
 		return hx.Verdict{IM: false, IS: false, Detail: "missing observation"}
 	}
 	if !jbool(spec, "inDomain") {
-		// outside the property's quantifier (ill-typed value, value encoding as null): nothing is claimed
+		// outside the property's quantifier (ill-typed value, value encoding as null, non-injective type names): nothing is claimed
 		return hx.Verdict{IM: true, IS: true, Detail: "outside the domain"}
 	}
-	if _, p := im["panic"]; p {
-		return hx.Verdict{IM: false, IS: false, Detail: "implementation panicked: " + fmt.Sprint(im["panic"]) + " at " + fmt.Sprint(im["site"])}
-	}
 	v := hx.Verdict{IM: true, IS: true}
-	// the property on this input: generation succeeds, references resolve (document loads), the encoding validates
-	if !jbool(im, "ok") {
-		v.IS = false
-		v.Detail = "property fails: " + jstr(im, "err") + "; value " + hx.Canon(im["enc"]) + "; schema " + hx.Canon(im["schema"]) + "; components " + hx.Canon(im["comps"])
-	}
-	// correspondence
 	fail := func(s string) {
 		if os.Getenv("C18DEBUG") != "" {
 			fmt.Fprintln(os.Stderr, "C18DEBUG IM:", s, "CASE", hx.Canon(c))
@@ -506,8 +588,46 @@ func cmpC18(c hx.Case, impl any, reply map[string]any) hx.Verdict {
 			v.Detail += "model: " + s
 		}
 	}
-	if jstr(model, "outcome") != "ok" {
-		fail("model outcome " + jstr(model, "outcome"))
+	outcome := jstr(model, "outcome")
+	_, crashed := im["crash"]
+	_, hung := im["hang"]
+	if _, p := im["panic"]; p {
+		return hx.Verdict{IM: false, IS: false, Detail: "implementation panicked: " + fmt.Sprint(im["panic"]) + " at " + fmt.Sprint(im["site"])}
+	}
+	if crashed || hung {
+		// "schemas generated for recursive types are finite": the generator did not even return
+		v.IS = false
+		v.Detail = "property fails: the generator does not terminate (" + fmt.Sprint(im["crash"]) + ")"
+		if outcome != "diverge" {
+			fail("model outcome " + outcome + ", implementation crashed")
+		}
+		return v
+	}
+	// the property on this input: generation succeeds (unless the caller asked for errors: ThrowErrorOnCycle, a failing
+	// customizer), references resolve (document loads), the encoding validates
+	if ge := jstr(im, "genErr"); ge != "" {
+		if !jbool(spec, "mayFail") {
+			v.IS = false
+			v.Detail = "property fails: no schema generated: " + jstr(im, "err")
+		}
+		if outcome != ge {
+			fail("model outcome " + outcome + ", implementation " + ge + " (" + jstr(im, "err") + ")")
+		}
+		if !c18JSONEq(im["enc"], model["enc"], false) {
+			fail(fmt.Sprintf("encoding differs: json.Marshal %s, model %s", hx.Canon(im["enc"]), hx.Canon(model["enc"])))
+		}
+		return v
+	}
+	if !jbool(im, "ok") {
+		if os.Getenv("C18DEBUG") == "2" && strings.Contains(hx.Canon(reply["excl"]), "Dangling") {
+			fmt.Fprintln(os.Stderr, "C18DEBUG DANGLING:", jstr(im, "err"), "CASE", hx.Canon(c))
+		}
+		v.IS = false
+		v.Detail = "property fails: " + jstr(im, "err") + "; value " + hx.Canon(im["enc"]) + "; schema " + hx.Canon(im["schema"]) + "; components " + hx.Canon(im["comps"])
+	}
+	// correspondence
+	if outcome != "ok" {
+		fail("model outcome " + outcome + ", implementation generated " + hx.Canon(im["schema"]))
 		return v
 	}
 	if !c18JSONEq(im["enc"], model["enc"], false) {
@@ -535,8 +655,9 @@ func cmpC18(c hx.Case, impl any, reply map[string]any) hx.Verdict {
 	if jbool(match, "resolves") != jbool(im, "load") {
 		fail(fmt.Sprintf("references resolve: impl load=%v (%s), model %v", jbool(im, "load"), jstr(im, "err"), jbool(match, "resolves")))
 	}
-	if jbool(im, "load") && jbool(match, "accept") != jbool(im, "accept") {
-		fail(fmt.Sprintf("verdict: impl accept=%v (%s), model accept=%v", jbool(im, "accept"), jstr(im, "err"), jbool(match, "accept")))
+	// "acceptImpl": the model's verdict with the validator's int64 format as built (it cannot reject, see Drv/C18.lean)
+	if jbool(im, "load") && jbool(match, "acceptImpl") != jbool(im, "accept") {
+		fail(fmt.Sprintf("verdict: impl accept=%v (%s), model accept=%v (exact %v)", jbool(im, "accept"), jstr(im, "err"), jbool(match, "acceptImpl"), jbool(match, "accept")))
 	}
 	return v
 }
@@ -552,16 +673,48 @@ var c18IntHi = map[string]string{"int": "9223372036854775807", "int8": "127", "i
 
 var c18Times = []string{"2020-01-02T03:04:05Z", "1999-12-31T23:59:59.123456789+05:30", "0001-01-01T00:00:00Z", "2024-02-29T12:00:00.5-08:00"}
 
+func zdef(n string) obj {
+	return c18Describe(c18Zoo[n], map[string]any{}, false)
+}
+
 func c18Leafs() []obj {
 	out := []obj{{"k": "bool"}}
 	for _, k := range c18IntKinds {
 		out = append(out, obj{"k": "int", "ik": k})
 	}
-	return append(out, obj{"k": "float", "b32": true}, obj{"k": "float", "b32": false}, obj{"k": "string"}, obj{"k": "bytes"}, obj{"k": "time"})
+	out = append(out, obj{"k": "float", "b32": true}, obj{"k": "float", "b32": false}, obj{"k": "string"}, obj{"k": "bytes"}, obj{"k": "time"})
+	// defined types over the basic kinds (and over []byte)
+	for _, n := range []string{"ZOctet", "ZStr", "ZI16", "ZU64", "ZF32", "ZFlag", "ZDigest"} {
+		out = append(out, zdef(n))
+	}
+	return out
+}
+
+// c18Under: the description below defined-type wrappers.
+func c18Under(d obj) obj {
+	for d["k"] == "def" {
+		d = asObj(d["u"])
+	}
+	return d
+}
+
+func c18IsU8(d obj) bool {
+	u := c18Under(d)
+	return u["k"] == "int" && u["ik"] == "uint8"
+}
+
+// c18IsBytes: a type that encoding/json writes as base64 text.
+func c18IsBytes(d obj) bool {
+	u := c18Under(d)
+	return u["k"] == "bytes" || (u["k"] == "slice" && c18IsU8(asObj(u["e"])))
 }
 
 // c18LeafValues: the interesting values of a leaf type (extremes first).
 func c18LeafValues(d obj) []obj {
+	if c18IsBytes(d) {
+		return []obj{{"bytes": ""}, {"bytes": "AQID"}, {"bytes": "/+8="}}
+	}
+	d = c18Under(d)
 	switch d["k"] {
 	case "bool":
 		return []obj{{"b": true}, {"b": false}}
@@ -576,8 +729,6 @@ func c18LeafValues(d obj) []obj {
 		return []obj{{"f": []any{"0", "0"}}, {"f": []any{"-15", "1"}}, {"f": []any{"3", "0"}}, {"f": []any{"12345", "3"}}}
 	case "string":
 		return []obj{{"s": ""}, {"s": "héllo q"}}
-	case "bytes":
-		return []obj{{"bytes": ""}, {"bytes": "AQID"}, {"bytes": "/+8="}}
 	case "time":
 		out := []obj{}
 		for _, t := range c18Times {
@@ -588,40 +739,78 @@ func c18LeafValues(d obj) []obj {
 	return nil
 }
 
+func c18IsLeaf(d obj) bool {
+	if c18IsBytes(d) {
+		return true
+	}
+	switch c18Under(d)["k"] {
+	case "bool", "int", "float", "string", "time":
+		return true
+	}
+	return false
+}
+
 func fld(name, tag string, t obj) obj {
-	return obj{"name": name, "tag": tag, "emb": false, "unexp": false, "t": t}
+	return obj{"name": name, "tag": tag, "emb": false, "unexp": false, "lower": false, "t": t}
+}
+func fldY(name, tag, yaml string, t obj) obj {
+	return obj{"name": name, "tag": tag, "emb": false, "unexp": false, "lower": false, "yaml": yaml, "t": t}
 }
 func emb(name, tag string, t obj) obj {
-	return obj{"name": name, "tag": tag, "emb": true, "unexp": false, "t": t}
+	return obj{"name": name, "tag": tag, "emb": true, "unexp": false, "lower": false, "t": t}
 }
 func st(fs ...any) obj { return obj{"k": "struct", "fields": fs} }
 func ptr(t obj) obj    { return obj{"k": "ptr", "e": t} }
-func sl(t obj) obj { // []uint8 IS []byte
+func sl(t obj) obj { // []uint8 IS []byte; a slice of a DEFINED uint8 type stays a slice (and is encoded as base64 text all the same)
 	if t["k"] == "int" && t["ik"] == "uint8" {
 		return obj{"k": "bytes"}
 	}
 	return obj{"k": "slice", "e": t}
 }
-func mp(t obj) obj       { return obj{"k": "map", "e": t} }
-func named(n string) obj { return obj{"k": "named", "n": n} }
-func vst(vs ...any) obj  { return obj{"struct": vs} }
-func vref(v obj) obj     { return obj{"ref": v} }
+func arr(n int, t obj) obj { return obj{"k": "array", "len": n, "e": t} }
+func mp(t obj) obj         { return obj{"k": "map", "e": t} }
+func mpk(kt, t obj) obj    { return obj{"k": "map", "kt": kt, "e": t} }
+func named(n string) obj   { return obj{"k": "named", "n": n} }
+func vst(vs ...any) obj    { return obj{"struct": vs} }
+func vref(v obj) obj       { return obj{"ref": v} }
 
 var vnil = obj{"nil": true}
 
 func c18Case(t, v obj, all bool) hx.Case {
+	return c18CaseO(t, v, all, nil)
+}
+
+// c18CaseO: a case with generator options (nil / empty: none).
+func c18CaseO(t, v obj, all bool, o obj) hx.Case {
 	decls := map[string]any{}
 	c18AddDecls(t, decls)
-	return hx.Case{"type": t, "value": v, "all": all, "decls": c18DeclList(decls)}
+	c := hx.Case{"type": t, "value": v, "all": all, "decls": c18DeclList(decls)}
+	if len(o) > 0 {
+		c["opts"] = o
+	}
+	return c
+}
+
+func c18MapKeys(d obj) []string {
+	if kt := asObj(d["kt"]); kt != nil {
+		u := c18Under(kt)
+		if u["k"] == "int" {
+			if c18IntLo[u["ik"].(string)] == "0" {
+				return []string{"1", "22", "200"}
+			}
+			return []string{"1", "-3", "22"}
+		}
+	}
+	return []string{"k", "next", "a"}
 }
 
 // c18Value draws a value of the described type.
 func c18Value(r *hx.Rng, d obj, decls map[string]any, depth int) obj {
-	switch d["k"] {
-	case "bool", "int", "float", "string", "bytes", "time":
+	if c18IsLeaf(d) {
 		vs := c18LeafValues(d)
-		if d["k"] == "int" && r.Chance(30) {
-			k := d["ik"].(string)
+		u := c18Under(d)
+		if u["k"] == "int" && r.Chance(30) {
+			k := u["ik"].(string)
 			lo, _ := new(big.Int).SetString(c18IntLo[k], 10)
 			hi, _ := new(big.Int).SetString(c18IntHi[k], 10)
 			span := new(big.Int).Sub(hi, lo)
@@ -629,23 +818,41 @@ func c18Value(r *hx.Rng, d obj, decls map[string]any, depth int) obj {
 			x.Mod(x, span.Add(span, big.NewInt(1)))
 			return obj{"i": x.Add(x, lo).String()}
 		}
-		if d["k"] == "string" && r.Chance(50) {
+		if u["k"] == "string" && r.Chance(50) {
 			return obj{"s": hx.Pick(r, []string{"a", "xyz", "5", "true", "null", " "})}
 		}
 		return hx.Pick(r, vs)
+	}
+	switch d["k"] {
+	case "def":
+		return c18Value(r, asObj(d["u"]), decls, depth)
 	case "ptr":
 		if depth <= 0 || r.Chance(35) {
 			return vnil
 		}
 		return vref(c18Value(r, asObj(d["e"]), decls, depth-1))
-	case "slice":
+	case "slice", "array", "recs":
 		n := r.Intn(3)
 		if depth <= 0 {
 			n = 0
 		}
+		e := asObj(d["e"])
+		if d["k"] == "array" {
+			n, _ = strconv.Atoi(fmt.Sprint(d["len"]))
+		}
+		if d["k"] == "recs" {
+			e = d
+			if jbool(d, "m") {
+				l := []any{}
+				for i := 0; i < n; i++ {
+					l = append(l, []any{[]string{"k", "next", "a"}[i], c18Value(r, e, decls, depth-1)})
+				}
+				return obj{"map": l}
+			}
+		}
 		l := []any{}
 		for i := 0; i < n; i++ {
-			l = append(l, c18Value(r, asObj(d["e"]), decls, depth-1))
+			l = append(l, c18Value(r, e, decls, depth-1))
 		}
 		return obj{"slice": l}
 	case "map":
@@ -653,9 +860,10 @@ func c18Value(r *hx.Rng, d obj, decls map[string]any, depth int) obj {
 		if depth <= 0 {
 			n = 0
 		}
+		keys := c18MapKeys(d)
 		l := []any{}
 		for i := 0; i < n; i++ {
-			l = append(l, []any{[]string{"k", "next", "a"}[i], c18Value(r, asObj(d["e"]), decls, depth-1)})
+			l = append(l, []any{keys[i], c18Value(r, asObj(d["e"]), decls, depth-1)})
 		}
 		return obj{"map": l}
 	case "named":
@@ -685,7 +893,7 @@ func c18FlatCount(fs []any) int {
 			if jstr(t, "k") == "ptr" {
 				t = asObj(t["e"])
 			}
-			n += c18FlatCount(jlist(t["fields"]))
+			n += c18FlatCount(jlist(t["fields"])) + 1
 		} else {
 			n++
 		}
@@ -693,27 +901,47 @@ func c18FlatCount(fs []any) int {
 	return n
 }
 
-// c18RandType draws a type description.
-func c18RandType(r *hx.Rng, depth int, allowNamed bool) obj {
+var c18NamedStructs = []string{"ZNode", "ZKids", "ZTree", "ZA", "ZB", "ZBoth", "ZDList", "ZInner", "ZSliceRec", "ZMapRec", "ZDeep", "ZOuter", "ZMid", "ZEmb", "ZEmbRec",
+	"ZUses", "ZEmpty", "ZHasEmpty", "ZHasNoTags", "ZAnon", "ZEmbDef", "ZYaml", "ZHasBox", "ZNS", "ZTriA", "ZTriC", "ZArr", "ZSelfVal", "ZWide", "ZHolder", "ZUnder"}
+var c18DefNames = []string{"ZOctet", "ZStr", "ZI16", "ZU64", "ZF32", "ZFlag", "ZNames", "ZDigest", "ZOctets", "ZGrid", "ZDict", "ZStrMap", "ZNodes", "ZNodeMap", "ZNL"}
+
+// c18RandType draws a type description. anon=false: no anonymous struct (every struct is a declared one).
+func c18RandType(r *hx.Rng, depth int, allowNamed, anon bool) obj {
 	leafs := c18Leafs()
 	if depth <= 0 {
 		return hx.Pick(r, leafs)
 	}
-	switch r.Intn(10) {
+	switch r.Intn(12) {
 	case 0, 1:
 		return hx.Pick(r, leafs)
 	case 2, 3:
-		return ptr(c18RandType(r, depth-1, allowNamed))
+		return ptr(c18RandType(r, depth-1, allowNamed, anon))
 	case 4:
-		return sl(c18RandType(r, depth-1, allowNamed))
+		return sl(c18RandType(r, depth-1, allowNamed, anon))
 	case 5:
-		return mp(c18RandType(r, depth-1, allowNamed))
-	case 6:
+		if r.Chance(25) {
+			return mpk(hx.Pick(r, []obj{zdef("ZStr"), {"k": "int", "ik": "int"}, {"k": "int", "ik": "uint8"}, {"k": "int", "ik": "int16"}}), c18RandType(r, depth-1, allowNamed, anon))
+		}
+		return mp(c18RandType(r, depth-1, allowNamed, anon))
+	case 6, 7:
 		if allowNamed {
-			return named(hx.Pick(r, []string{"ZNode", "ZKids", "ZTree", "ZA", "ZB", "ZBoth", "ZDList", "ZInner", "ZSliceRec", "ZMapRec", "ZDeep", "ZOuter", "ZMid", "ZEmb", "ZEmbRec"}))
+			return named(hx.Pick(r, c18NamedStructs))
 		}
 		return hx.Pick(r, leafs)
+	case 8:
+		if allowNamed {
+			return zdef(hx.Pick(r, c18DefNames))
+		}
+		return hx.Pick(r, leafs)
+	case 9:
+		if r.Chance(40) {
+			return arr(1+r.Intn(2), c18RandType(r, depth-1, allowNamed, anon))
+		}
+		fallthrough
 	default:
+		if !anon {
+			return named(hx.Pick(r, c18NamedStructs))
+		}
 		return c18RandStruct(r, depth, allowNamed, true)
 	}
 }
@@ -726,6 +954,21 @@ func c18RandStruct(r *hx.Rng, depth int, allowNamed, allowEmb bool) obj {
 	for i := 0; i < n; i++ {
 		name := names[i]
 		if allowEmb && r.Chance(20) {
+			if r.Chance(25) { // an embedded defined non-struct type: a field for encoding/json, nothing for the generator
+				dn := hx.Pick(r, []string{"ZOctet", "ZStr", "ZI16", "ZNames"})
+				t := zdef(dn)
+				if r.Chance(30) {
+					t = ptr(t)
+				}
+				dup := false
+				for _, f := range fs {
+					dup = dup || jstr(asObj(f), "name") == dn
+				}
+				if !dup {
+					fs = append(fs, emb(dn, "", t))
+					continue
+				}
+			}
 			inner := c18RandStruct(r, depth-1, allowNamed, r.Chance(30))
 			var t obj = inner
 			if r.Chance(40) {
@@ -738,7 +981,7 @@ func c18RandStruct(r *hx.Rng, depth int, allowNamed, allowEmb bool) obj {
 			fs = append(fs, emb("E"+name, tag, t))
 			continue
 		}
-		t := c18RandType(r, depth-1, allowNamed)
+		t := c18RandType(r, depth-1, allowNamed, true)
 		tag := ""
 		switch r.Intn(10) {
 		case 0:
@@ -761,7 +1004,11 @@ func c18RandStruct(r *hx.Rng, depth int, allowNamed, allowEmb bool) obj {
 				tag = hx.Pick(r, tags) // possible clash
 			}
 		}
-		fs = append(fs, fld(name, tag, t))
+		f := fld(name, tag, t)
+		if r.Chance(12) {
+			f["yaml"] = hx.Pick(r, []string{"y" + strings.ToLower(name), "yy,omitempty", "-", "a", ""})
+		}
+		fs = append(fs, f)
 	}
 	if c18FlatCount(fs) > 12 { // beyond 12 elements sort.Sort is no longer an insertion sort
 		return c18RandStruct(r, depth, allowNamed, false)
@@ -772,7 +1019,7 @@ func c18RandStruct(r *hx.Rng, depth int, allowNamed, allowEmb bool) obj {
 func c18Wrappers(leaf obj) []obj {
 	inner := st(fld("X", "x", leaf))
 	return []obj{
-		leaf, ptr(leaf), ptr(ptr(leaf)), sl(leaf), sl(ptr(leaf)), mp(leaf), mp(ptr(leaf)), ptr(sl(leaf)),
+		leaf, ptr(leaf), ptr(ptr(leaf)), sl(leaf), sl(ptr(leaf)), mp(leaf), mp(ptr(leaf)), ptr(sl(leaf)), arr(2, leaf), arr(1, ptr(leaf)),
 		st(fld("A", "a", leaf)), st(fld("A", "a", ptr(leaf))), st(fld("A", "a,omitempty", leaf)), st(fld("A", "", leaf), fld("B", "b", leaf)),
 		st(fld("A", "a", inner), fld("B", "b", ptr(inner))), st(fld("A", "a", ptr(inner)), fld("B", "b", inner)),
 		st(fld("A", "a", inner), fld("B", "b", sl(ptr(inner))), fld("C", "c", mp(ptr(inner)))),
@@ -783,11 +1030,14 @@ func c18Wrappers(leaf obj) []obj {
 // slices/maps of zero and two elements. The product is capped.
 func c18AllValues(d obj, cap int) []obj {
 	var out []obj
-	switch d["k"] {
-	case "bool", "int", "float", "string", "bytes", "time":
+	if c18IsLeaf(d) {
 		return c18LeafValues(d)
-	case "named":
+	}
+	switch d["k"] {
+	case "named", "recs":
 		return nil
+	case "def":
+		return c18AllValues(asObj(d["u"]), cap)
 	case "ptr":
 		out = append(out, vnil)
 		for _, v := range c18AllValues(asObj(d["e"]), cap) {
@@ -799,11 +1049,22 @@ func c18AllValues(d obj, cap int) []obj {
 		for i, v := range es {
 			out = append(out, obj{"slice": []any{v, es[(i+1)%len(es)]}})
 		}
+	case "array":
+		es := c18AllValues(asObj(d["e"]), cap)
+		n, _ := strconv.Atoi(fmt.Sprint(d["len"]))
+		for i := range es {
+			l := []any{}
+			for k := 0; k < n; k++ {
+				l = append(l, es[(i+k)%len(es)])
+			}
+			out = append(out, obj{"slice": l})
+		}
 	case "map":
 		es := c18AllValues(asObj(d["e"]), cap)
 		out = append(out, obj{"map": []any{}})
+		keys := c18MapKeys(d)
 		for i, v := range es {
-			out = append(out, obj{"map": []any{[]any{"k", v}, []any{"l", es[(i+1)%len(es)]}}})
+			out = append(out, obj{"map": []any{[]any{keys[0], v}, []any{keys[1], es[(i+1)%len(es)]}}})
 		}
 	case "struct":
 		fs := jlist(d["fields"])
@@ -830,26 +1091,134 @@ func c18AllValues(d obj, cap int) []obj {
 	return out
 }
 
-func c18ZooCases(r *hx.Rng, perType int, emit func(hx.Case)) {
-	names := []string{}
-	for n := range c18Zoo {
-		names = append(names, n)
+// ---- option sets
+
+// c18OptionMatrix: every combination of the generator options (the customizer in its three modelled behaviours,
+// the type-name generator as none / prefix / table that swaps two names and maps the rest by prefix).
+func c18OptionMatrix(root string) []obj {
+	var out []obj
+	for _, all := range []bool{false, true} {
+		for _, throw := range []bool{false, true} {
+			for cust := 0; cust < 3; cust++ {
+				for exp := 0; exp < 4; exp++ {
+					for tng := 0; tng < 3; tng++ {
+						o := obj{}
+						if all {
+							o["all"] = true
+						}
+						if throw {
+							o["throw"] = true
+						}
+						switch cust {
+						case 1:
+							o["cust"] = true
+						case 2:
+							o["cust"] = true
+							o["excl"] = []any{"v", "next", "y", "kids"}
+						}
+						switch exp {
+						case 1:
+							o["export"] = true
+						case 2:
+							o["export"], o["top"] = true, true
+						case 3:
+							o["export"], o["top"], o["generics"] = true, true, true
+						}
+						switch tng {
+						case 1:
+							o["tng"] = obj{"pfx": "X_", "tbl": []any{}}
+						case 2:
+							tbl := []any{[]any{"ZNode", "ZB"}, []any{"ZB", "ZNode"}}
+							if root != "ZNode" && root != "ZB" {
+								tbl = append(tbl, []any{root, "Renamed." + root})
+							}
+							o["tng"] = obj{"pfx": "", "tbl": tbl}
+						}
+						out = append(out, o)
+					}
+				}
+			}
+		}
 	}
-	sort.Strings(names)
+	return out
+}
+
+func c18RandOpts(r *hx.Rng) obj {
+	o := obj{}
+	if r.Chance(40) {
+		return o
+	}
+	if r.Chance(12) {
+		o["throw"] = true
+	}
+	if r.Chance(25) {
+		o["cust"] = true
+		if r.Chance(50) {
+			o["excl"] = []any{hx.Pick(r, []string{"a", "b", "x", "next", "v", "_root", "kids"}), hx.Pick(r, []string{"c", "A", "in", "m", "y"})}
+		}
+		if r.Chance(15) {
+			o["fail"] = []any{hx.Pick(r, []string{"a", "b", "x", "next", "v", "_root", "kids", "p", "q"})}
+		}
+	}
+	if r.Chance(55) {
+		o["export"] = true
+		o["top"] = r.Chance(50)
+		o["generics"] = r.Chance(50)
+	}
+	if r.Chance(35) {
+		if r.Chance(60) {
+			o["tng"] = obj{"pfx": hx.Pick(r, []string{"X_", "pkg.", "T"}), "tbl": []any{}}
+		} else {
+			a, b := hx.Pick(r, c18NamedStructs), hx.Pick(r, c18NamedStructs)
+			o["tng"] = obj{"pfx": "", "tbl": []any{[]any{a, b}, []any{b, a}}}
+		}
+	}
+	return o
+}
+
+func c18ZooCases(ctx *hx.Ctx, emit func(hx.Case)) {
+	r := ctx.Rng
+	wraps := []func(obj) obj{func(t obj) obj { return t }, ptr, sl, func(t obj) obj { return mp(ptr(t)) },
+		func(t obj) obj { return st(fld("P", "p", ptr(t)), fld("Q", "q", t)) }}
+	// (a) every declared struct as the root, under every option set
+	for _, n := range c18ZooStructs {
+		t := named(n)
+		decls := map[string]any{}
+		c18AddDecls(t, decls)
+		for i, o := range c18OptionMatrix(n) {
+			all := jbool(o, "all")
+			delete(o, "all")
+			v := c18Value(r, t, decls, 2+i%3)
+			emit(c18CaseO(t, v, all, o))
+		}
+	}
+	// (b) declared structs and defined types under wrappers, default options and random option sets
+	per := 3
+	if ctx.Thorough() {
+		per = 20
+	}
+	names := append(append([]string{}, c18ZooStructs...), c18ZooDefs...)
 	for _, n := range names {
-		for _, wrap := range []func(obj) obj{func(t obj) obj { return t }, ptr, sl, func(t obj) obj { return mp(ptr(t)) },
-			func(t obj) obj { return st(fld("P", "p", ptr(t)), fld("Q", "q", t)) }} {
-			t := wrap(named(n))
+		base := named(n)
+		if c18Zoo[n].Kind() != reflect.Struct {
+			base = zdef(n)
+		}
+		for wi, wrap := range wraps {
+			t := wrap(base)
 			decls := map[string]any{}
 			c18AddDecls(t, decls)
-			for i := 0; i < perType; i++ {
-				for _, all := range []bool{false, true} {
-					v := c18Value(r, t, decls, 1+i%5)
-					if _, isNil := v["nil"]; isNil {
-						continue
-					}
-					emit(c18Case(t, v, all))
+			for i := 0; i < per; i++ {
+				v := c18Value(r, t, decls, 1+i%5)
+				if _, isNil := v["nil"]; isNil {
+					continue
 				}
+				emit(c18CaseO(t, v, false, nil))
+				emit(c18CaseO(t, v, true, nil))
+				o := c18RandOpts(r)
+				if wi == 4 { // an anonymous root struct: keep the export options for the other wrappers
+					delete(o, "export")
+				}
+				emit(c18CaseO(t, v, r.Chance(30), o))
 			}
 		}
 	}
@@ -859,6 +1228,7 @@ func c18Shapes() []obj {
 	i8, s, b := obj{"k": "int", "ik": "int8"}, obj{"k": "string"}, obj{"k": "bool"}
 	in1 := st(fld("X", "x", i8), fld("Y", "y,omitempty", s))
 	in2 := st(fld("X", "x", s), fld("W", "w", b))
+	oct := zdef("ZOctet")
 	return []obj{
 		st(emb("In", "", in1), fld("Z", "z", b)),
 		st(emb("In", "", ptr(in1)), fld("Z", "z", b)),
@@ -889,6 +1259,18 @@ func c18Shapes() []obj {
 		mp(sl(named("ZTree"))),
 		st(fld("B", "b", in1), fld("A", "a", in1), fld("C", "c", ptr(in1))),
 		st(fld("C", "c", ptr(in1)), fld("A", "zz", in1)),
+		// round 3: defined element types, embedded defined types, yaml tags, arrays, map keys
+		sl(oct), ptr(sl(oct)), sl(sl(oct)), mp(sl(oct)), sl(ptr(oct)), arr(3, oct),
+		st(fld("A", "a", sl(oct)), fld("B", "b,omitempty", sl(oct)), fld("C", "c", zdef("ZOctets")), fld("D", "d", ptr(zdef("ZDigest")))),
+		st(emb("ZOctet", "", oct), fld("Z", "z", b)),
+		st(emb("ZStr", "", ptr(zdef("ZStr"))), emb("ZI16", "n", zdef("ZI16")), fld("Z", "z", b)),
+		st(emb("ZOctet", "", oct), fld("X", "ZOctet", s)), // the embedded field's name clashes with a tag
+		st(fldY("A", "", "alpha", i8), fldY("B", "", "beta,omitempty", s), fldY("C", "c", "cc", b), fldY("D", "", "-", i8)),
+		st(fldY("A", "", "b", i8), fld("B", "b", s)), // yaml name clashes with a JSON name (only matters with UseAllExportedFields)
+		st(emb("In", "", st(fldY("X", "", "deep", i8))), fld("Z", "z", b)),
+		mpk(zdef("ZStr"), i8), mpk(obj{"k": "int", "ik": "int"}, ptr(s)), mpk(obj{"k": "int", "ik": "uint8"}, sl(i8)),
+		st(fld("A", "a", arr(2, ptr(named("ZNode")))), fld("B", "b", named("ZNode"))),
+		st(fld("A", "a", zdef("ZNodes")), fld("B", "b", zdef("ZNodeMap")), fld("C", "c", named("ZNode"))),
 	}
 }
 
@@ -924,18 +1306,23 @@ func genC18(ctx *hx.Ctx, emit func(hx.Case)) {
 		}
 	}
 	// 3. declared zoo
-	per := 4
-	if ctx.Thorough() {
-		per = 25
+	c18ZooCases(ctx, emit)
+	// 4. the self-recursive container types (each evaluation costs a child process: few)
+	for _, t := range []obj{{"k": "recs", "m": false}, {"k": "recs", "m": true}, st(fld("A", "a", obj{"k": "recs", "m": false}))} {
+		decls := map[string]any{}
+		emit(c18CaseO(t, c18Value(r, t, decls, 2), false, nil))
+		emit(c18CaseO(t, c18Value(r, t, decls, 3), false, obj{"throw": true}))
 	}
-	c18ZooCases(r, per, emit)
-	// 4. random stream
+	// 5. random stream
 	n := 2500
 	if ctx.Thorough() {
 		n = 40000
 	}
 	for i := 0; i < n; i++ {
-		t := c18RandType(r, 1+r.Intn(4), r.Chance(60))
+		o := c18RandOpts(r)
+		// with ExportComponentSchemas every anonymous struct becomes the component "": use declared structs only, mostly
+		anon := !jbool(o, "export") || r.Chance(20)
+		t := c18RandType(r, 1+r.Intn(4), r.Chance(60) || !anon, anon)
 		decls := map[string]any{}
 		c18AddDecls(t, decls)
 		for k := 0; k < 2; k++ {
@@ -943,7 +1330,7 @@ func genC18(ctx *hx.Ctx, emit func(hx.Case)) {
 			if _, isNil := v["nil"]; isNil {
 				continue
 			}
-			emit(c18Case(t, v, r.Chance(35)))
+			emit(c18CaseO(t, v, r.Chance(35), o))
 		}
 	}
 }
@@ -951,8 +1338,7 @@ func genC18(ctx *hx.Ctx, emit func(hx.Case)) {
 // ------------------------------------------------------------------ shrinking
 
 func c18Sub(c hx.Case, t, v obj) hx.Case {
-	x := c18Case(t, v, jbool(c, "all"))
-	return x
+	return c18CaseO(t, v, jbool(c, "all"), asObj(c["opts"]))
 }
 
 func shrinkC18(c hx.Case) []hx.Case {
@@ -966,17 +1352,21 @@ func shrinkC18(c hx.Case) []hx.Case {
 		decls[jstr(asObj(d), "name")] = asObj(d)["fields"]
 	}
 	switch jstr(t, "k") {
+	case "def":
+		out = append(out, c18Sub(c, asObj(t["u"]), v))
 	case "ptr":
 		if inner := asObj(v["ref"]); inner != nil {
 			out = append(out, c18Sub(c, asObj(t["e"]), inner))
 		}
-	case "slice":
+	case "slice", "array":
 		l := jlist(v["slice"])
 		for _, x := range l {
 			out = append(out, c18Sub(c, asObj(t["e"]), asObj(x)))
 		}
-		for _, n := range dropEach(l) {
-			out = append(out, c18Sub(c, t, obj{"slice": n}))
+		if jstr(t, "k") == "slice" {
+			for _, n := range dropEach(l) {
+				out = append(out, c18Sub(c, t, obj{"slice": n}))
+			}
 		}
 	case "map":
 		l := jlist(v["map"])
@@ -1011,7 +1401,7 @@ func shrinkC18(c hx.Case) []hx.Case {
 				fm := asObj(fs[i])
 				for _, sub := range shrinkC18(c18Sub(c, asObj(fm["t"]), asObj(vs[i]))) {
 					st2, sv2 := asObj(sub["type"]), asObj(sub["value"])
-					if jstr(st2, "k") == jstr(asObj(fm["t"]), "k") {
+					if jstr(st2, "k") == jstr(asObj(fm["t"]), "k") && !(jbool(fm, "emb") && jstr(fm, "tag") == "") {
 						nf := append([]any{}, fs...)
 						nv := append([]any{}, vs...)
 						nfm := obj{}
@@ -1030,6 +1420,23 @@ func shrinkC18(c hx.Case) []hx.Case {
 		x := cloneCase(c)
 		x["all"] = false
 		out = append(out, x)
+	}
+	if o := asObj(c["opts"]); len(o) > 0 {
+		for k := range o {
+			no := obj{}
+			for k2, x := range o {
+				if k2 != k {
+					no[k2] = x
+				}
+			}
+			x := cloneCase(c)
+			if len(no) == 0 {
+				delete(x, "opts")
+			} else {
+				x["opts"] = no
+			}
+			out = append(out, x)
+		}
 	}
 	return out
 }
